@@ -21,6 +21,9 @@ func monitorsExtra(m *mon) {
 		if strings.HasPrefix(n, "LIFECYCLE:") {
 			m.add("C14", "state-machine", "%s", n)
 		}
+		if strings.HasPrefix(n, "PENDING:") {
+			m.add("C17", "pending-inexact", "%s", n)
+		}
 		if strings.HasPrefix(n, "SELECT:") {
 			m.add("C15", "selection", "%s", n)
 		}
@@ -83,21 +86,37 @@ func (m *mon) c04() {
 		}
 		return -1
 	}
+	// the items of one AddAll are accepted in slice order
+	batchPos := map[*sub]int{}
+	for _, b := range m.e.batches {
+		for i, it := range b.items {
+			batchPos[it] = i
+		}
+	}
 	for _, j := range m.e.subs {
 		tj := disp(j)
-		if tj < 0 || j.handle == nil {
+		if tj < 0 || (j.handle == nil && j.batch == nil) {
 			continue
 		}
 		isPrio := m.e.qkinds[j.q] == qPrio
 		for _, k := range m.e.subs {
-			if k == j || k.q != j.q || !k.accepted || k.handle == nil || k.tAddRet > tj || m.cancelledBeforeStart(k) || len(k.closeNil) > 0 {
+			if k == j || k.q != j.q || k.tAddRet > tj || m.cancelledBeforeStart(k) || len(k.closeNil) > 0 {
 				continue
+			}
+			if k.batch == nil && (!k.accepted || k.handle == nil) {
+				continue
+			}
+			if k.batch != nil && (len(k.tEnter) == 0 || k.tAddRet < 0) {
+				continue // an item of a batch counts as accepted if it ran in the end
 			}
 			tk := disp(k)
 			if tk >= 0 && tk < tj {
 				continue // already dispatched
 			}
 			before := k.tAddRet < j.tAddCall
+			if k.batch != nil && k.batch == j.batch {
+				before = batchPos[k] < batchPos[j]
+			}
 			first := before
 			if isPrio {
 				first = k.prio < j.prio || (k.prio == j.prio && before)
@@ -254,6 +273,14 @@ func init() {
 				vt.Yield()
 			}
 		}
+		if r.Intn(2) == 0 {
+			// one large batch with many equal priorities: accepted in slice order
+			var specs []itemSpec
+			for i, nb := 0, e.p("batch", 13+r.Intn(30)); i < nb; i++ {
+				specs = append(specs, itemSpec{prio: pick(r, 0, 0, 0, 1, 2), outcome: oOK})
+			}
+			e.addAll(q, specs)
+		}
 		e.drain()
 	})
 
@@ -325,20 +352,33 @@ func init() {
 			ad.ops[len(ad.ops)-1].op = "enq"
 		}
 		e.adapters = append(e.adapters, ad)
+		if e.p("running", r.Intn(2)) == 1 {
+			// the worker is already running (another queue was bound first): the bind must still
+			// make it look at what the adapter holds
+			e.bind(qFifo)
+			vt.WaitIdle()
+		}
 		c := e.call("Bind", strconv.Itoa(kind))
 		var q qh
 		switch kind {
 		case qPersist:
+			vt.Mark("ad:binding", ad, "") // the next Manager.Register by this thread is this adapter's
 			q = qPers{e.wPlain.WithPersistentQueue(ad)}
 		case qPersistPrio:
+			vt.Mark("ad:binding", ad, "") // the next Manager.Register by this thread is this adapter's
 			q = qPersP{e.wPlain.WithPersistentPriorityQueue(adPrio{ad})}
 		case qDist:
+			vt.Mark("ad:binding", ad, "") // the next Manager.Register by this thread is this adapter's
 			q = qDistQ{e.wPlain.WithDistributedQueue(ad)}
 		case qDistPrio:
+			vt.Mark("ad:binding", ad, "") // the next Manager.Register by this thread is this adapter's
 			q = qDistP{e.wPlain.WithDistributedPriorityQueue(adPrio{ad})}
 		}
 		e.qs = append(e.qs, q)
 		e.qkinds = append(e.qkinds, kind)
+		for _, s := range e.subs {
+			s.q = len(e.qs) - 1
+		}
 		c.ret(e.w.Status())
 		// no further prompting: the system must drain on its own
 		vt.WaitIdle()
@@ -360,8 +400,10 @@ func init() {
 				w := NewWorker(func(j Job[int]) { e.wfBody(j) }, WithConcurrency(1+r.Intn(3)))
 				ws = append(ws, w)
 				if prio {
+					vt.Mark("ad:binding", ad, "") // the next Manager.Register by this thread is this adapter's
 					w.WithDistributedPriorityQueue(adPrio{ad})
 				} else {
+					vt.Mark("ad:binding", ad, "") // the next Manager.Register by this thread is this adapter's
 					w.WithDistributedQueue(ad)
 				}
 			}
@@ -461,6 +503,20 @@ func init() {
 				if s.accepted {
 					lens[i]++
 				}
+			}
+		}
+		// paused and at rest with everything still pending: the worker's count is the sum over its queues
+		vt.WaitIdle()
+		{
+			sum, acc := 0, 0
+			for _, q := range e.qs {
+				sum += q.NumPending()
+			}
+			for _, l := range lens {
+				acc += l
+			}
+			if wp := e.w.NumPending(); wp != sum || (!faults && sum != acc) {
+				e.notes = append(e.notes, fmt.Sprintf("PENDING: paused at rest: worker NumPending=%d, sum over its queues=%d, accepted and not dispatched=%d", wp, sum, acc))
 			}
 		}
 		// reference selection sequence from the initial populations (no submissions while draining)
